@@ -265,7 +265,7 @@ func (s *Syncer[H]) findTailHeight(ctx context.Context, oldTail, head H) (uint64
 	)
 
 	newTailHeight := estimatedTailHeight
-	for newTailHeight > oldTail.Height() && newTailHeight <= s.store.Height() {
+	for newTailHeight > oldTail.Height() && newTailHeight-1 <= s.store.Height() {
 		// blocks produced faster than the configured block time make the estimate overshoot:
 		// walk down while the header below is still within the window, so that it is not pruned
 		prev, err := s.store.GetByHeight(ctx, newTailHeight-1)
